@@ -18,10 +18,14 @@ REPO = "/repo"
 
 def run_one(patch):
     head = open(patch).read(2000)
+    silent = re.search(r"#\s*expect-silent:\s*(C\d+)", head)
     m = re.search(r"#\s*expect:\s*(C\d+)\s+(.*)", head)
-    if not m:
+    if not m and not silent:
         return (patch, False, "no '# expect:' header")
-    prop, frags = m.group(1), [x.strip() for x in m.group(2).split("|")]
+    if silent:
+        prop, frags = silent.group(1), []
+    else:
+        prop, frags = m.group(1), [x.strip() for x in m.group(2).split("|")]
     tmp = tempfile.mkdtemp(prefix="pest-mutant-")
     try:
         scratch = os.path.join(tmp, "repo")
@@ -35,6 +39,10 @@ def run_one(patch):
         q = subprocess.run([os.path.join(VERIF, "check"), prop, "--tier", "quick"], cwd=VERIF, env=env,
                            stdout=subprocess.PIPE, stderr=subprocess.STDOUT, text=True)
         out = q.stdout
+        if silent:
+            if q.returncode == 0 and "VIOLATION" not in out:
+                return (patch, True, "silent on a behaviour-preserving refactor (negative control)")
+            return (patch, False, "FALSE ALARM on a behaviour-preserving change: " + out[-1500:])
         if q.returncode != 1 or "VIOLATION property=%s" % prop not in out:
             return (patch, False, "check did not fire (exit %d): %s" % (q.returncode, out[-400:]))
         if "BUILD" in out and "cannot analyse" in out:
